@@ -403,7 +403,9 @@ class Interp:
                       ast.LShift: lambda: a << b, ast.RShift: lambda: a >> b, ast.Div: lambda: a / b}[type(op)]
             except KeyError:
                 raise Unsupported(f'binop {type(op).__name__}')
-            if a is None or b is None or isinstance(a, (SymObj, Opaque)) or isinstance(b, (SymObj, Opaque)):
+            if isinstance(a, Opaque) or isinstance(b, Opaque):
+                raise Unsupported('arithmetic on an opaque value (not a TypeError of the program: the value is unknown)')
+            if a is None or b is None or isinstance(a, SymObj) or isinstance(b, SymObj):
                 self.raise_(TypeError, f'unsupported operand type(s)', node=node)
             try:
                 return fn()
@@ -411,7 +413,9 @@ class Interp:
                 self.raise_(TypeError, str(e), node=node)
             except ZeroDivisionError as e:
                 self.raise_(ZeroDivisionError, str(e), node=node)
-        if a is None or b is None or isinstance(a, (str, SymObj, Opaque, list, dict)) or isinstance(b, (str, SymObj, Opaque, list, dict)):
+        if isinstance(a, Opaque) or isinstance(b, Opaque):
+            raise Unsupported('arithmetic on an opaque value (not a TypeError of the program: the value is unknown)')
+        if a is None or b is None or isinstance(a, (str, SymObj, list, dict)) or isinstance(b, (str, SymObj, list, dict)):
             self.raise_(TypeError, 'unsupported operand type(s)', node=node)
         if isinstance(op, ast.Div) and is_symint(a) and isinstance(b, (int, float)) and not isinstance(b, bool) and b != 0:
             return Quot(a, b)
@@ -540,6 +544,8 @@ class Interp:
                     return self.obj_eq(a, b, node)
                 if isinstance(op, ast.NotEq):
                     return Not(self.obj_eq(a, b, node))
+                if isinstance(a, Opaque) or isinstance(b, Opaque):
+                    raise Unsupported('ordering of an opaque value (the value is unknown)')
                 self.raise_(TypeError, 'ordering objects', node=node)
             try:
                 return {ast.Eq: lambda: a == b, ast.NotEq: lambda: a != b, ast.Lt: lambda: a < b,
@@ -553,6 +559,8 @@ class Interp:
                     return False
                 if isinstance(op, ast.NotEq):
                     return True
+                if isinstance(x, Opaque):
+                    raise Unsupported('ordering of an opaque value (the value is unknown)')
                 self.raise_(TypeError, f"comparison not supported with {type(x).__name__}", node=node)
         if is_symbool(a) or is_symbool(b) or isinstance(a, bool) or isinstance(b, bool):
             if isinstance(op, (ast.Eq, ast.NotEq)) and (isinstance(a, bool) or is_symbool(a)) \
